@@ -1,15 +1,19 @@
 (* Properties/C14.v — ICMPv6 spoofing is confined to hunted hosts; routers are
-   learned exactly.  Only statements, each closed by [exact] of a lemma proved in Proofs/. *)
-From PV Require Import Base.Prelude Model.Icmp6SpoofRA Model.Icmp6Spoof Spec.RFC4861 Proofs.Icmp6Spoof.
+   learned exactly.  Only statements, each closed by [exact] of a lemma proved in Proofs/.
+   Model: Model/Icmp6Spoof.v (event system), Model/Icmp6SpoofRA.v (RA decoding, byte exact),
+   Model/Icmp6SpoofKnown.v (what "exactly" means field by field; recorded classes).
+   Spec: Spec/RFC4861.v (independent RA decoder). *)
+From PV Require Import Base.Prelude Base.Text Model.Icmp6SpoofRA Model.Icmp6Spoof Spec.RFC4861 Model.Icmp6SpoofKnown
+  Proofs.Icmp6SpoofRA Proofs.Icmp6Spoof.
 Open Scope N_scope.
 
-(* Every forged neighbour advertisement emitted anywhere in any history (any
-   interleaving of StartHunt/StopHunt/Close/loop wake-ups/received RAs, any
-   value of the process-wide RA counter) goes to a MAC that is in the hunt
-   list at emission, while the handler is not closed, after a router has been
-   learned; its target is a learned router's address, bound to our MAC
-   (target link-layer address option and Ethernet source), override set,
-   solicited clear, hop limit 255. *)
+(* ------------------------------------------------------------------ *)
+(* C14_confined.  Every forged neighbour advertisement emitted anywhere in any history (any
+   interleaving of StartHunt/StopHunt/Close/loop wake-ups/received RAs, any value of the
+   process-wide RA counter) goes to a MAC that is in the hunt list at emission, while the
+   handler is not closed, after a router has been learned; its target is a learned router's
+   address, bound to our MAC (target link-layer address option and Ethernet source), override
+   set, solicited clear, hop limit 255. *)
 Theorem C14_confined : forall c rep evs st e l,
   In (st, e, ONAs l) (fst (run c (init rep) evs)) -> forall n, In n l -> forged_ok c st n.
 Proof. exact confined_run. Qed.
@@ -19,3 +23,122 @@ Example C14_confined_nonvacuous :
   exists st e n, In (st, e, ONAs [n]) (fst (run ex_cfg (init (-1)) ex_hist)) /\ na_eth_dst n = ex_mac.
 Proof. exact confined_nonvacuous. Qed.
 Print Assumptions C14_confined_nonvacuous.
+
+(* ------------------------------------------------------------------ *)
+(* C14_start_filters *)
+Theorem C14_start_rejects_ip4 : forall c st a, is4 (a_ip a) = true ->
+  step c st (StartHunt a) = (st, OStage NoChange (Some EInvalidIP)).
+Proof. exact start_rejects_ip4. Qed.
+Print Assumptions C14_start_rejects_ip4.
+
+Theorem C14_start_ignores_non_lla : forall c st a, is6 (a_ip a) = true -> is_llu (a_ip a) = false ->
+  step c st (StartHunt a) = (st, OStage NoChange None).
+Proof. exact start_ignores_non_lla. Qed.
+Print Assumptions C14_start_ignores_non_lla.
+
+(* idempotent per MAC: a hunted MAC is not added again and no second loop is started ... *)
+Theorem C14_start_idempotent : forall c st a, al_has (hunt st) (a_mac a) = true ->
+  is4 (a_ip a) = false -> (is6 (a_ip a) && negb (is_llu (a_ip a))) = false ->
+  step c st (StartHunt a) = (st, OStage Hunt None).
+Proof. exact start_idempotent. Qed.
+Print Assumptions C14_start_idempotent.
+
+(* ... and every accepted StartHunt leaves its MAC hunted *)
+Theorem C14_start_then_hunted : forall c st a, snd (step c st (StartHunt a)) = OStage Hunt None ->
+  al_has (hunt (fst (step c st (StartHunt a)))) (a_mac a) = true.
+Proof. exact start_then_hunted. Qed.
+Print Assumptions C14_start_then_hunted.
+
+Theorem C14_start_new : forall c st a, al_has (hunt st) (a_mac a) = false ->
+  is4 (a_ip a) = false -> (is6 (a_ip a) && negb (is_llu (a_ip a))) = false ->
+  let st' := fst (step c st (StartHunt a)) in
+  hunt st' = hunt st ++ [a] /\ List.length (loops st') = S (List.length (loops st)).
+Proof. exact start_new. Qed.
+Print Assumptions C14_start_new.
+
+Example C14_start_filters_nonvacuous :
+  is4 [192;168;0;10] = true /\
+  (is6 (hexb "20010db8000000000000000000000001"%string) = true /\ is_llu (hexb "20010db8000000000000000000000001"%string) = false) /\
+  (is4 (hexb "fe800000000000000000000000000001"%string) = false /\
+   (is6 (hexb "fe800000000000000000000000000001"%string) && negb (is_llu (hexb "fe800000000000000000000000000001"%string))) = false).
+Proof. exact start_filters_nonvacuous. Qed.
+Print Assumptions C14_start_filters_nonvacuous.
+
+(* ------------------------------------------------------------------ *)
+(* C14_stop.  After StopHunt a (address-less or link-local a.ip: a StopHunt with any other
+   address is ignored by design, symmetric with StartHunt), at any point of any history, no
+   forged advertisement goes to a's MAC in any continuation that does not hunt that MAC again.
+   Real-time residue: a loop pass already past its membership check when StopHunt returns. *)
+Theorem C14_stop : forall c rep evs1 a evs2,
+  stop_effective a -> no_start (a_mac a) evs2 ->
+  let st := snd (run c (init rep) evs1) in
+  let st1 := fst (step c st (StopHunt a)) in
+  forall s e l, In (s, e, ONAs l) (fst (run c st1 evs2)) -> forall n, In n l -> bytes_eqb (na_eth_dst n) (a_mac a) = false.
+Proof. exact stop_no_more. Qed.
+Print Assumptions C14_stop.
+
+Example C14_stop_nonvacuous :
+  stop_effective (mkAddr ex_mac []) /\ no_start ex_mac ex_hist_stop2 /\
+  (exists s e n, In (s, e, ONAs [n]) (fst (run ex_cfg (init 3) ex_hist_stop1)) /\ na_eth_dst n = ex_mac) /\
+  (exists s e, In (s, e, ONAs []) (fst (run ex_cfg (fst (step ex_cfg (snd (run ex_cfg (init 3) ex_hist_stop1)) (StopHunt (mkAddr ex_mac [])))) ex_hist_stop2))).
+Proof. exact stop_nonvacuous. Qed.
+Print Assumptions C14_stop_nonvacuous.
+
+(* After Close nothing is emitted by any loop pass, whatever happens afterwards. *)
+Theorem C14_close : forall c rep evs1 evs2,
+  let st := snd (run c (init rep) evs1) in
+  let st1 := fst (step c st Close) in
+  forall s e l, In (s, e, ONAs l) (fst (run c st1 evs2)) -> l = [].
+Proof. exact close_no_more. Qed.
+Print Assumptions C14_close.
+
+(* ------------------------------------------------------------------ *)
+(* C14_router_exact.  For EVERY byte string p that the independent decoder accepts as a router
+   advertisement (ra_decode p = Some d: any number and order of prefix, MTU, RDNSS, DNSSL, route
+   information, source/target LLA and unknown options, no option of length zero), processed by the
+   handler in any state (counter at a multiple of 4 after the increment, host known), the table
+   entry of the source records: flags, preference, hop limit, lifetime, reachable and retransmit
+   timers; source link-layer address (and the router's MAC at creation); MTU (in Router.MTU and
+   in Options.MTU); every prefix information option with its masked prefix — exactly as decoded;
+   and the route information / RDNSS / DNSSL options exactly when at most one of each kind is
+   present (the library keeps one struct per kind: recorded findings). *)
+Theorem C14_router_exact : forall st src eth p d,
+  bytes_ok p -> ra_decode p = Some d -> processed_ra st -> ra_result st src eth p d.
+Proof. exact router_exact. Qed.
+Print Assumptions C14_router_exact.
+
+Example C14_router_exact_nonvacuous : exists d,
+  bytes_ok wit_all /\ ra_decode wit_all = Some d /\ processed_ra (init 3) /\
+  List.length (ra_opts d) = 7%nat /\
+  known_ri_multiple d = false /\ known_rdnss_multiple d = false /\ known_dnssl_multiple d = false.
+Proof. exact router_exact_nonvacuous. Qed.
+Print Assumptions C14_router_exact_nonvacuous.
+
+(* the byte-level core: the library's option loop computes the fold of the reference decoder's list *)
+Theorem C14_options_exact : forall p d, bytes_ok p -> ra_decode p = Some d ->
+  ra_options p = Ok (fold_left apply1 (ra_opts d) opts_zero).
+Proof. exact ra_options_exact. Qed.
+Print Assumptions C14_options_exact.
+
+(* not processed (3 of 4 advertisements in the process, or unknown host): table untouched *)
+Theorem C14_router_skipped : forall st src eth p hk,
+  Z.rem (repeat_ st + 1) 4 <> 0%Z \/ hk = false ->
+  routers (fst (rx_ra st src eth p hk)) = routers st /\ defrouter (fst (rx_ra st src eth p hk)) = defrouter st.
+Proof. exact router_skipped. Qed.
+Print Assumptions C14_router_skipped.
+
+(* full strength fails for the options that may repeat: witnesses replayed on the real code *)
+Theorem C14_router_exact_routes_refuted : exists p d r, bytes_ok p /\ ra_decode p = Some d /\ processed_ra (init 3) /\
+  learn1 p = Some r /\ known_ri_multiple d = true /\ ~ routes_exact r d.
+Proof. exact routes_refuted. Qed.
+Print Assumptions C14_router_exact_routes_refuted.
+
+Theorem C14_router_exact_rdnss_refuted : exists p d r, bytes_ok p /\ ra_decode p = Some d /\ processed_ra (init 3) /\
+  learn1 p = Some r /\ known_rdnss_multiple d = true /\ ~ rdnss_exact r d.
+Proof. exact rdnss_refuted. Qed.
+Print Assumptions C14_router_exact_rdnss_refuted.
+
+Theorem C14_router_exact_dnssl_refuted : exists p d r, bytes_ok p /\ ra_decode p = Some d /\ processed_ra (init 3) /\
+  learn1 p = Some r /\ known_dnssl_multiple d = true /\ ~ dnssl_exact r d.
+Proof. exact dnssl_refuted. Qed.
+Print Assumptions C14_router_exact_dnssl_refuted.
